@@ -269,4 +269,37 @@ theorem enforceLv_spec (max : Nat) (A B : List Int) (hA : A.length = max) (h1 : 
       rw [hz] at l5 ⊢
       rw [l5 hlt, ← hrev, List.reverse_reverse]
 
+theorem sum_nonneg : ∀ (l : List Int), Nonneg l → 0 ≤ l.sum := by
+  intro l
+  induction l with
+  | nil => intro _; simp
+  | cons a r ih =>
+    intro h
+    have ha := h a (by simp)
+    have := ih (fun y hy => h y (by simp [hy]))
+    simp only [List.sum_cons]; omega
+
+theorem le_sum_of_mem : ∀ (l : List Int), Nonneg l → ∀ x ∈ l, x ≤ l.sum := by
+  intro l
+  induction l with
+  | nil => intro _ x hx; simp at hx
+  | cons a r ih =>
+    intro h x hx
+    have ha := h a (by simp)
+    have hr : Nonneg r := fun y hy => h y (by simp [hy])
+    have hs := sum_nonneg r hr
+    simp only [List.mem_cons] at hx
+    simp only [List.sum_cons]
+    rcases hx with rfl | hx
+    · omega
+    · have := ih hr x hx; omega
+
+/-- BETWEEN THE ROUNDS of the loop every count stays between 0 and the number of codes: no count goes
+    negative, none exceeds what an `i32` (or a `u16`) holds, for every histogram within the hypotheses -/
+theorem rounds_stay_in_range (M : Int) (l : List Int) (h : Inv M l) (k : Nat) (hk : M + k ≤ W l) :
+    ∀ x ∈ iter k l, 0 ≤ x ∧ x ≤ l.sum := by
+  obtain ⟨i1, _, i3, _⟩ := iter_spec M k l h hk
+  intro x hx
+  exact ⟨i1.nn x hx, by rw [← i3]; exact le_sum_of_mem _ i1.nn x hx⟩
+
 end Model.HuffLimit
